@@ -287,6 +287,46 @@ func c17R3(c *Ctx) {
 		return true
 	})
 	if sw == nil {
+		// the switch may have been moved into an unexported helper that decode calls
+		ast.Inspect(fd, func(n ast.Node) bool {
+			call, ok := n.(*ast.CallExpr)
+			if !ok || sw != nil {
+				return true
+			}
+			var id *ast.Ident
+			switch f := call.Fun.(type) {
+			case *ast.Ident:
+				id = f
+			case *ast.SelectorExpr:
+				id = f.Sel
+			}
+			if id == nil {
+				return true
+			}
+			fobj, _ := p.TypesInfo.Uses[id].(*types.Func)
+			if fobj == nil || fobj.Pkg() != p.Types || fobj.Exported() {
+				return true
+			}
+			for _, file := range p.Syntax {
+				for _, d := range file.Decls {
+					hd, ok := d.(*ast.FuncDecl)
+					if !ok || p.TypesInfo.Defs[hd.Name] != types.Object(fobj) {
+						continue
+					}
+					ast.Inspect(hd, func(n2 ast.Node) bool {
+						if s2, ok := n2.(*ast.SwitchStmt); ok && s2.Tag != nil {
+							if tv := p.TypesInfo.Types[s2.Tag]; tv.Type != nil && types.Identical(tv.Type, typeT) {
+								sw = s2
+							}
+						}
+						return true
+					})
+				}
+			}
+			return true
+		})
+	}
+	if sw == nil {
 		c.R.Fail(r, "decode: switch over connector.Type", c.Pos(fd.Pos()), "no switch over the connector type found in decode")
 		return
 	}
@@ -298,8 +338,8 @@ func c17R3(c *Ctx) {
 		if cc.List == nil {
 			// default must return a non-nil error
 			for _, s := range cc.Body {
-				if rs, ok := s.(*ast.ReturnStmt); ok && len(rs.Results) == 2 {
-					if id, ok := rs.Results[1].(*ast.Ident); !ok || id.Name != "nil" {
+				if rs, ok := s.(*ast.ReturnStmt); ok && len(rs.Results) >= 1 {
+					if id, ok := rs.Results[len(rs.Results)-1].(*ast.Ident); !ok || id.Name != "nil" {
 						hasDefaultRefusal = true
 					}
 				}
